@@ -63,6 +63,11 @@ func main() {
 		}
 		b, _ := json.MarshalIndent(cs, "", " ")
 		fmt.Println(string(b))
+	case "solo":
+		if len(os.Args) < 3 {
+			usage()
+		}
+		os.Exit(core.RunSolo(os.Args[2], os.Args[3:]))
 	case "replay":
 		if len(os.Args) < 3 {
 			usage()
